@@ -711,6 +711,14 @@ func oidFromExtKeyUsage(eku ExtKeyUsage) (oid asn1.ObjectIdentifier, ok bool) {
 			return pair.oid, true
 		}
 	}
+	// Every other ExtKeyUsage constant the parser can produce is in the
+	// generated tables, keyed by the dotted OID.
+	for dotted, constant := range ekuConstants {
+		if constant == eku {
+			oid, ok = ekuOIDs[dotted]
+			return
+		}
+	}
 	return
 }
 
@@ -2427,7 +2435,8 @@ func buildExtensions(template *Certificate, _ []byte) (ret []pkix.Extension, err
 			if oid, ok := oidFromExtKeyUsage(u); ok {
 				oids = append(oids, oid)
 			} else {
-				panic("internal error")
+				err = errors.New("x509: unknown extended key usage")
+				return
 			}
 		}
 
